@@ -41,6 +41,7 @@ ASSUMPTIONS = [
     "CPython dataclass semantics as modelled in ModelD.Params (validated on generated class hierarchies every run)",
     "the non-member attributes of the IntEnum class that `getattr` resolves are taken from dir(MineralPhase) at run time",
 ]
+OPTIMIZED_TWIN = True   # the implementation-side search is repeated under `python -O` (validation must not live in assert / __debug__)
 TRUSTED = ["tomllib", "introspection of the real classes through __dict__/__annotations__"]
 
 SCRATCH_ROOT = pathlib.Path("/tmp/discrete")
